@@ -41,7 +41,8 @@ def make_data(seed, model, lead, K, D, ds):
                                 noise={'clustered': 0.3, 'tight': 0.1}.get(ds, 0.5))
         if not cplx:
             r = A.rng(seed, 'c02shift', model, K, D, ds)
-            y = y + r.standard_normal(D) * 0.5
+            # real (Gaussian) data: a common offset, large compared with the spread for the 'tight' sets
+            y = y + r.standard_normal(D) * (0.5 if ds != 'tight' else 1e6)
     if model in M.INTEGRATION:
         emb, _ = A.clustered_data(seed, lead, K, per, 3, 'c02emb', ds, complex_=False, noise=0.4)
         return (y, emb), N
@@ -71,7 +72,14 @@ def run_traj(key):
     lead = (F,) if (integ or F > 1) else ()
     data, N = make_data(seed, model, lead, K, D, ds)
     init = A.soft_affiliation(seed, lead, K, N, 'c02start', start, floor=0.1 * (1 + start))
-    sal = S.make_saliency(lead, N, salk)
+    if salk == 'cross':
+        # absolute saliency scale at which the class masses straddle 1e-10: the first third of the frames
+        # carries three times the saliency of the rest, total masses around 2e-10 and 0.7e-10
+        g = A.graded_saliency(lead, N)
+        g[..., : N // 3] *= 3.0
+        sal = g * (1.6e-10 * K / N)
+    else:
+        sal = S.make_saliency(lead, N, salk)
     opts = dict(fopts)
     opts['weight_constant_axis'] = wca
     if sal is not None:
@@ -190,7 +198,7 @@ def subchecks(tier, seed):
                 else:
                     wcas = ((-1,), -2, (-2,)) + (((-3,), (-3, -1)) if nd == 3 else ())
                 for wca in wcas:
-                    for salk in ('none', 'graded'):
+                    for salk in ('none', 'graded', 'tiny', 'cross'):
                         for eps in (('default', 0.0) if model in ('cacgmm', 'gcacgmm') else ('none',)):
                             for K in (2, 3):
                                 for D in (2, 3):
@@ -201,7 +209,9 @@ def subchecks(tier, seed):
                                                 # remaining axes vary together (covering design)
                                                 if (K, D) not in ((2, 3), (3, 2)) and (st != 0 or salk != 'none'):
                                                     continue
-                                                if st == 2 and (eps == 0.0 or salk == 'graded'):
+                                                if st == 2 and (eps == 0.0 or salk != 'none'):
+                                                    continue
+                                                if salk in ('tiny', 'cross') and (st != 0 or ds == 'tight' or K == 3):
                                                     continue
                                             yield (fam, wca, salk, eps, K, D, F, ds, st, n, seed)
     return [Sub('em_trajectories',
